@@ -198,6 +198,7 @@ def build(cfg):
 class LinenoSpec(Spec):
     prop = 'C08'
     title = 'generated module layouts: lineno, part offsets, failing line'
+    batch = 32
 
     def __init__(self, name, max_cost):
         self.name = name
